@@ -21,6 +21,8 @@ const c13prelude = `U := {|n| {
   '+: m{|k| "plus#{.n}".p; U(.n + k)},
   fail: m{|K, msg| "fail#{.n}".p; raise K.new(msg)},
   _missing: m{|name, a| "missing-#{name}#{.n}".p; U(.n + 100)},
+  _priv: m{|k| "priv#{.n}".p; U(.n + (k || 7))},
+  _pval: 5,
 }}
 fv := {|x| "var#{x.n}".p; U(x.n + 10)}
 fpair := {|a, b| "pair".p; a + b}
@@ -50,6 +52,7 @@ func c13steps(fam string) (ok []c13step, failing []c13step) {
 			{name: "operator", src: ".+(5)"}, {name: "literal", src: `.{|x| "lit#{x.n}".p; U(x.n * 2)}`}, {name: "var", src: ".^fv"},
 			{name: "value-missing", src: ".undefinedprop(1)"}, {name: "method-trailing-literal", src: ".add(1) {|z| z}"},
 			{name: "returns-error-value", src: ".{|x| wrapped}"},
+			{name: "private-method", src: "._priv(2)"}, {name: "private-missing", src: "._nosuch(1)"},
 		}
 		for _, k := range c19errKinds {
 			failing = append(failing, c13step{name: "raise-" + k, src: fmt.Sprintf(`.fail(%s, "m-%s")`, k, k), fail: &c13fail{k, "m-" + k}})
@@ -168,6 +171,9 @@ func runC13(w *fw.W) {
 		{fam: "special", recv: "6.try./(0)", steps: nil},
 		{fam: "special", recv: "6.try./(3)", steps: nil},
 		{fam: "special", recv: "{x: 6.try./(0)}", steps: []c13step{{name: "prop-holding-either", src: ".x"}}},
+		{fam: "special", recv: "U(1)", steps: []c13step{{name: "private-non-callable", src: "._pval"}}},
+		{fam: "special", recv: "U(1)", steps: []c13step{{name: "private-method", src: "._priv"}, {name: "private-method", src: "._priv(3)"}}},
+		{fam: "special", recv: "{_x: 1}", steps: []c13step{{name: "private-absent", src: "._y", fail: &c13fail{"NoPropErr", ""}}}},
 		// a step spelled as a variable call whose variable holds a built-in function / a callable object / a non-callable
 		{fam: "special", recv: "3", steps: []c13step{{name: "var-builtin-func", src: ".^negf"}}},
 		{fam: "special", recv: "3", steps: []c13step{{name: "var-callable-object", src: ".^callable"}}},
@@ -292,6 +298,7 @@ func runC13(w *fw.W) {
 				}
 				push("E.err?", "false")
 				push("E.or(777)", su)
+				push("E.or(fident)", su)
 				push("E.catch(TypeErr) {|e| 42}.A", "["+su+", nil]")
 				push("E.ignore(TypeErr).A", "["+su+", nil]")
 				push("E.abandon", su)
@@ -303,6 +310,11 @@ func runC13(w *fw.W) {
 				push("E.val?", "false")
 				push("E.err?", "true")
 				push("E.or(777)", "777")
+				// the default is handed back as it is, whatever it is (a function is not called, nil stays nil)
+				push("E.or(fident) == fident", "true")
+				push("E.or({|| raise ValueErr.new(\"default was called\")}).S.len > 0", "true")
+				push("E.or(nil)", "nil")
+				push("E.or([1, {a: 2}])", `[1, {"a": 2}]`)
 				push("E.catch("+u.ErrKind+") {|e| 42}.A", "[42, nil]")
 				push("E.catch("+u.ErrKind+") {|e| e.msg}.val", quoteInspect(u.ErrMsg))
 				push("E.catch("+other+") {|e| 42}.A", "[nil, "+es+"]")
